@@ -40,8 +40,12 @@ import (
 // type. Same rows, same options => the files must be byte-identical. Each worker process handles
 // one case per row type (the caches are keyed by type; what the process did with the other types
 // is part of the history as well).
+//
+// L2 part (c17_cache_l2.go): the same worker processes, and a third one per batch that only calls
+// SchemaOf, record what cachedSchemas did at every step; the parent compares the sequence with the
+// Lean mirror of schemaOf (PqModel/SchemaCache.lean).
 
-const c17CacheRule = " cache (L1, two fresh worker subprocesses per batch, one case per private row type and batch): rows x options under test {generic-writer, reflect-writer, generic-buffer -> WriteRowGroup, Deconstruct -> WriteRows} x {no StructTag replacement | 1..3 replacements} x gen.RandWriterCfg, written after 1..4 earlier activities on the same Go type {SchemaOf, generic-writer closed / abandoned, write + NewGenericReader read-back, reflect-writer, generic-buffer, deconstruct} x {no replacement | 1..3 replacements: codec, encoding, optional, rename, drop} x another writer configuration, vs the same write as the first activity of a process: byte-identical files; non-trivial = at least one row and an earlier activity whose options differ from the ones under test."
+const c17CacheRule = " cache (L1, two fresh worker subprocesses per batch, one case per private row type and batch): rows x options under test {generic-writer, reflect-writer, generic-buffer -> WriteRowGroup, Deconstruct -> WriteRows} x {no StructTag replacement | 1..3 replacements} x gen.RandWriterCfg, written after 1..4 earlier activities on the same Go type {SchemaOf, generic-writer closed / abandoned, write + NewGenericReader read-back, reflect-writer, generic-buffer, deconstruct} x {no replacement | 1..3 replacements: codec, encoding, optional, rename, drop} x another writer configuration, vs the same write as the first activity of a process: byte-identical files; non-trivial = at least one row and an earlier activity whose options differ from the ones under test." + c17CacheL2Rule
 
 func init() {
 	RegisterSub("C17", "cache", RunC17Cache)
@@ -175,6 +179,12 @@ type c17cAct struct {
 	CfgDesc string    `json:"config"`
 	Rows    int       `json:"rows"`
 	RowSeed int64     `json:"row_seed"`
+
+	// the *Schema a direct SchemaOf call of the activity handed out (schema-cache trace, c17_cache_l2.go)
+	seen *parquet.Schema
+	// the activity went on to NewGenericWriter[T] with an explicit schema and no StructTag option
+	// (a second, default derivation of T inside the library)
+	alsoDefault bool
 }
 
 func (a *c17cAct) kind() string {
@@ -308,6 +318,7 @@ func (t c17cT[T]) run(a *c17cAct, rowsV reflect.Value) (file []byte, err error) 
 	switch a.Op {
 	case "schema-of":
 		s := parquet.SchemaOf(new(T), sopts...)
+		a.seen = s
 		return []byte(s.String()), nil
 	case "generic-writer", "generic-writer-abandoned", "read-back":
 		w := parquet.NewGenericWriter[T](buf, wopts...)
@@ -330,6 +341,7 @@ func (t c17cT[T]) run(a *c17cAct, rowsV reflect.Value) (file []byte, err error) 
 		}
 	case "reflect-writer":
 		s := parquet.SchemaOf(new(T), sopts...)
+		a.seen = s
 		w := parquet.NewWriter(buf, append([]parquet.WriterOption{s}, cfg.Opts...)...)
 		for i := range rows {
 			if err := w.Write(&rows[i]); err != nil {
@@ -347,7 +359,9 @@ func (t c17cT[T]) run(a *c17cAct, rowsV reflect.Value) (file []byte, err error) 
 			w = parquet.NewGenericWriter[T](buf, cfg.Opts...)
 		} else {
 			s := parquet.SchemaOf(new(T), sopts...)
+			a.seen = s
 			b = parquet.NewGenericBuffer[T](s)
+			a.alsoDefault = true
 			w = parquet.NewGenericWriter[T](buf, append([]parquet.WriterOption{s}, cfg.Opts...)...)
 		}
 		if _, err := b.Write(rows); err != nil {
@@ -361,6 +375,7 @@ func (t c17cT[T]) run(a *c17cAct, rowsV reflect.Value) (file []byte, err error) 
 		}
 	case "deconstruct":
 		s := parquet.SchemaOf(new(T), sopts...)
+		a.seen = s
 		prs := make([]parquet.Row, len(rows))
 		for i := range rows {
 			prs[i] = s.Deconstruct(nil, &rows[i])
@@ -401,13 +416,16 @@ type c17cResult struct {
 	Err       string   `json:"err"`
 	PriorErrs []string `json:"prior_errors"`
 	Schema    string   `json:"default_schema_afterwards"`
+	// every activity of the case as a step of the process-wide schema-cache trace (c17_cache_l2.go)
+	Trace []c17cStep `json:"schema_cache_trace,omitempty"`
 }
 
-// c17CacheWorker: `-worker c17cache <batch> <hist|ref> <seed> <tier> <variant> <out>`; one case per
-// private row type; `ref` skips the earlier activities.
+// c17CacheWorker: `-worker c17cache <batch> <hist|ref|calls> <seed> <tier> <variant> <out>`; one case per
+// private row type; `ref` skips the earlier activities; `calls` runs a history of direct SchemaOf
+// calls only (L2 trace against the schemaOf mirror, c17_cache_l2.go).
 func c17CacheWorker(args []string) int {
 	if len(args) < 6 {
-		fmt.Fprintln(os.Stderr, "usage: -worker c17cache <batch> <hist|ref> <seed> <tier> <variant> <out>")
+		fmt.Fprintln(os.Stderr, "usage: -worker c17cache <batch> <hist|ref|calls> <seed> <tier> <variant> <out>")
 		return 2
 	}
 	batch, _ := strconv.Atoi(args[0])
@@ -415,24 +433,35 @@ func c17CacheWorker(args []string) int {
 	ctx := core.NewCtx()
 	ctx.Prop, ctx.Seed, ctx.Tier, ctx.Variant = "C17", seed, args[3], args[4]
 	var out []c17cResult
-	for _, t := range c17cTypes {
+	tr := newC17cTracer()
+	if args[1] == "calls" {
+		out = append(out, c17cResult{Type: "calls", PriorErrs: []string{}, Trace: c17cCallsHistory(ctx, batch, tr)})
+	}
+	for ti, t := range c17cTypes {
+		if args[1] == "calls" {
+			break
+		}
 		sc := c17cScenarioOf(ctx, batch, t)
 		res := c17cResult{Type: t.name(), PriorErrs: []string{}}
 		if args[1] == "hist" {
 			for _, a := range sc.Prior {
-				if _, err := t.run(a, c17cRows(t, a)); err != nil {
+				_, err := t.run(a, c17cRows(t, a))
+				if err != nil {
 					res.PriorErrs = append(res.PriorErrs, a.kind()+": "+err.Error())
 				}
+				tr.step(a.kind(), ti, a.Tags, a.seen, err != nil, a.alsoDefault)
 			}
 		}
 		file, err := t.run(sc.Final, c17cRows(t, sc.Final))
+		tr.step(sc.Final.kind(), ti, sc.Final.Tags, sc.Final.seen, err != nil, sc.Final.alsoDefault)
 		if err != nil {
 			res.Err = err.Error()
 		} else {
 			sum := sha256.Sum256(file)
 			res.Sha, res.Size = hex.EncodeToString(sum[:]), len(file)
 		}
-		res.Schema = t.defaultSchema()
+		res.Schema = tr.defaultSchema(t, ti)
+		res.Trace, tr.steps = tr.steps, nil
 		out = append(out, res)
 	}
 	blob, _ := json.Marshal(out)
@@ -471,6 +500,7 @@ func RunC17Cache(ctx *core.Ctx) {
 		}(b)
 	}
 	wg.Wait()
+	c17cCompareTraces(ctx)
 }
 
 func c17cSpawn(ctx *core.Ctx, exe, dir string, batch int, mode string) ([]c17cResult, string) {
@@ -502,6 +532,10 @@ func c17cSpawn(ctx *core.Ctx, exe, dir string, batch int, mode string) ([]c17cRe
 func c17cBatch(ctx *core.Ctx, exe, dir string, batch int) {
 	hist, herr := c17cSpawn(ctx, exe, dir, batch, "hist")
 	ref, rerr := c17cSpawn(ctx, exe, dir, batch, "ref")
+	calls, cerr := c17cSpawn(ctx, exe, dir, batch, "calls")
+	c17cCollectTrace(ctx, batch, "hist", hist, herr)
+	c17cCollectTrace(ctx, batch, "ref", ref, rerr)
+	c17cCollectTrace(ctx, batch, "calls", calls, cerr)
 	if rerr != "" || len(ref) != len(c17cTypes) {
 		ctx.Fail("L2", "harness-worker-died-outside-a-case", "c17cache reference worker (no earlier activity) failed: "+rerr, map[string]any{"batch": batch})
 		return
